@@ -70,7 +70,20 @@ func main() {
 		}
 		os.Exit(cmdFunc(pos[0], *prop, *dump, *keep))
 	case "baseline":
-		os.Exit(cmdBaseline())
+		os.Exit(cmdBaseline(pos...))
+	case "params":
+		p := mustLoad()
+		params := map[string][]string{}
+		for name := range p.specs.Funcs {
+			if fn, ok := p.fns[name]; ok {
+				var ns []string
+				for _, prm := range fn.Params {
+					ns = append(ns, prm.Name())
+				}
+				params[name] = ns
+			}
+		}
+		os.Exit(writeJSON(filepath.Join(verifDir, "baseline_params.json"), params))
 	case "list":
 		os.Exit(cmdList())
 	case "replay":
@@ -180,10 +193,17 @@ func cmdFunc(name, prop string, dump, keep bool) int {
 	return 0
 }
 
-func cmdBaseline() int {
+func cmdBaseline(only ...string) int {
 	p := mustLoad()
 	bl := Baseline{}
+	if len(only) > 0 {
+		bl = loadBaseline(verifDir)
+	}
 	for _, prop := range allProps(p) {
+		if len(only) > 0 && !contains(only, prop) {
+			continue
+		}
+		delete(bl, prop)
 		pr := runProperty(p, prop, "quick", "")
 		wd := newWorkDir()
 		solveAll(pr, wd, 20, false)
@@ -200,6 +220,19 @@ func cmdBaseline() int {
 		}
 		sort.Strings(bl[prop])
 	}
+	// parameter names at baseline time: contracts name parameters; if a parameter is renamed
+	// later the old name is kept as an alias (a harmless edit must not raise an alarm)
+	params := map[string][]string{}
+	for name := range p.specs.Funcs {
+		if fn, ok := p.fns[name]; ok {
+			var ns []string
+			for _, prm := range fn.Params {
+				ns = append(ns, prm.Name())
+			}
+			params[name] = ns
+		}
+	}
+	writeJSON(filepath.Join(verifDir, "baseline_params.json"), params)
 	return writeJSON(filepath.Join(verifDir, "baseline_obligations.json"), bl)
 }
 
